@@ -350,7 +350,7 @@ func newestConfigAtOrBelow(d *raft.VNode, idx uint64) (raft.VConfig, bool) {
 
 // checkSnapshotLabel: C12 when a snapshot was stored by this step.
 func (m *Monitor) checkSnapshotLabel(w *World, pre raft.VNode, op Op, post raft.VNode) *Bad {
-	if op.Kind != "snapRun" || post.SnapResult == nil || post.SnapResult.Err != "" {
+	if (op.Kind != "snapRun" && op.Kind != "snapAround") || post.SnapResult == nil || post.SnapResult.Err != "" {
 		return nil
 	}
 	idx := post.SnapResult.Index
@@ -361,6 +361,13 @@ func (m *Monitor) checkSnapshotLabel(w *World, pre raft.VNode, op Op, post raft.
 		}
 	}
 	if label == nil {
+		// retention may have removed it at once when a newer snapshot (an installation that arrived while this
+		// one was being written) is on disk: superseded, nothing to judge
+		for i := range post.SnapsDisk {
+			if post.SnapsDisk[i].Index > idx {
+				return nil
+			}
+		}
 		return &Bad{"C12", fmt.Sprintf("snapshot %d reported but not on disk", idx)}
 	}
 	if idx != pre.Fsm.Index || label.Term != pre.Fsm.Term {
